@@ -68,9 +68,28 @@ func (g *SpecGen) objectSchema(depth int, refs bool) map[string]any {
 	if g.R.P(0.5) {
 		s["required"] = []any{names[0]}
 	}
-	if g.R.P(0.2) {
+	if g.R.P(0.15) {
+		// readOnly members (a required readOnly member only warns)
+		if pm, ok := props[names[len(names)-1]].(map[string]any); ok {
+			if _, isRef := pm["$ref"]; !isRef {
+				pm["readOnly"] = true
+			}
+		}
+	}
+	switch g.R.Intn(10) {
+	case 0, 1:
 		sc, _, _ := g.scalar()
 		s["additionalProperties"] = sc
+	case 2:
+		// a required name which only the (object-valued, possibly readOnly) additionalProperties schema defines
+		extra := "extra" + g.Tag
+		ap := map[string]any{"type": "object", "properties": map[string]any{extra: map[string]any{"type": "string"}}}
+		if g.R.Bool() {
+			ap["readOnly"] = true
+		}
+		s["additionalProperties"] = ap
+		req, _ := s["required"].([]any)
+		s["required"] = append(req, extra)
 	}
 	return s
 }
@@ -212,7 +231,7 @@ func (g *SpecGen) operation(path, method string, pathParams []string, sharedPara
 // Faults is the list of single rule-breaking edits.
 var Faults = []string{
 	"dup-operation-id", "path-param-missing", "path-param-extra", "path-param-not-required", "path-param-dup-placeholder",
-	"dup-param-inline", "dup-param-via-ref", "two-body-params", "two-body-params-ref", "body-and-formdata",
+	"dup-param-inline", "dup-param-via-ref", "dup-param-two-refs", "two-body-params", "two-body-params-ref", "body-and-formdata",
 	"array-no-items-param", "array-no-items-header", "array-no-items-nested-items", "array-no-items-body-schema", "array-no-items-response-schema",
 	"required-undefined-property", "unresolvable-ref-definition", "unresolvable-ref-parameter", "unresolvable-ref-response",
 	"dup-inherited-property", "circular-ancestry-direct", "circular-ancestry-indirect",
@@ -271,14 +290,16 @@ func (g *SpecGen) Apply(fault string) (applied bool, strictOnly bool) {
 		g.ops[1].op["operationId"] = g.ops[0].op["operationId"]
 		return true, false
 	case "path-param-missing":
-		for _, o := range g.ops {
+		// prefer an operation with several placeholders, and drop any one of its path parameters
+		cands := append([]*specOp{}, g.ops...)
+		sort.SliceStable(cands, func(i, j int) bool { return len(cands[i].pathParams) > len(cands[j].pathParams) })
+		for _, o := range cands {
 			if len(o.pathParams) > 0 {
 				var out []any
-				dropped := false
+				victim := o.pathParams[g.R.Intn(len(o.pathParams))]
 				for _, p := range g.params(o.op) {
 					m, _ := p.(map[string]any)
-					if !dropped && m["in"] == "path" {
-						dropped = true
+					if m["in"] == "path" && m["name"] == victim {
 						continue
 					}
 					out = append(out, p)
@@ -346,6 +367,14 @@ func (g *SpecGen) Apply(fault string) (applied bool, strictOnly bool) {
 			out = append(out, map[string]any{"name": name, "in": "query", "type": "string"})
 		}
 		o.op["parameters"] = out
+		return true, false
+	case "dup-param-two-refs":
+		// two different shared parameters with the same name and location, both referenced
+		o := g.anyOp()
+		sp := doc["parameters"].(map[string]any)
+		sp["twinA"] = map[string]any{"name": "twin", "in": "query", "type": "string"}
+		sp["twinB"] = map[string]any{"name": "twin", "in": "query", "type": "integer"}
+		o.op["parameters"] = append(g.params(o.op), map[string]any{"$ref": "#/parameters/twinA"}, map[string]any{"$ref": "#/parameters/twinB"})
 		return true, false
 	case "two-body-params", "two-body-params-ref":
 		o := g.writableOp()
@@ -567,6 +596,20 @@ func (g *SpecGen) ApplyMulti() []string {
 				what = append(what, "dup-inherited-in-several-children")
 			}
 		}
+	}
+	if g.R.P(0.5) {
+		// several operations WITHOUT parameters and response headers whose responses share a status code and
+		// carry a schema with an invalid default (nothing in between re-initialises per-location validator state)
+		paths := g.Doc["paths"].(map[string]any)
+		n := g.R.Range(2, 3)
+		for i := 0; i < n; i++ {
+			resp := map[string]any{"description": "ok", "schema": map[string]any{"type": "integer", "maximum": I(5), "default": "bad" + fmt.Sprint(i)}}
+			if i == n-1 && g.R.Bool() {
+				resp = map[string]any{"description": "ok", "schema": map[string]any{"type": "integer", "maximum": I(5), "default": I(3)}}
+			}
+			paths[fmt.Sprintf("/np%d%s", i, g.Tag)] = map[string]any{"get": map[string]any{"operationId": fmt.Sprintf("np%d%s", i, g.Tag), "responses": map[string]any{"200": resp}}}
+		}
+		what = append(what, "bad-response-defaults-in-parameterless-operations")
 	}
 	if g.R.P(0.4) {
 		for _, f := range []string{"dup-operation-id", "dup-param-inline", "path-param-extra", "invalid-pattern-param"} {
